@@ -67,6 +67,10 @@ def annotations(tier):
     specs.append([(full, 0, 0), (full, 0, 0, ((1, 0, 3),))])     # alternative acceptor +3 at exon 2
     specs.append([(full, 0, 0), (full, 0, 0, ((1, 1, -3),))])    # alternative donor -3 at exon 2
     specs.append([(full, 0, 0), (full, 0, 0, ((2, 0, -5),)), (full[1:], 0, 0)])
+    # T = slots 2.. ; a longer isoform containing T (extra exons upstream) ; a third isoform whose intron overlaps T's first exon by
+    # 100 bp (its exon is the right part of T's first exon): T's transcription start lies inside an intron of another isoform
+    specs.append([(full, 0, 0), (full[2:], 0, 0), (full[1:], 0, 0, ((1, 0, 100),))])
+    specs.append([(full, 0, 0), (full[:-2], 0, 0), (full[:-1], 0, 0, ((len(full) - 3, 1, -100),))])     # the same at the 3' side
     if tier == "thorough":
         inner = [s for s in multi if s not in others and s != full]
         for o in inner[:8]:
@@ -377,7 +381,14 @@ def case(args):
         # when another compatible isoform has splice sites at least as close to the read as T's (alternative sites a few bases
         # apart), the read follows that isoform just as well: which of them is 'T' is then not defined by the statement
         dT = site_distance(r["blocks"], iso[r["T"]][2], delta)
-        closest = all(t == r["T"] or (site_distance(r["blocks"], iso[t][2], delta) or 0) > dT for t in comp) if dT is not None else False
+        # competitors are the isoforms the read is full-length for as well (same number of introns); an isoform that merely contains
+        # the read's chain (the read is a truncated copy of it) does not make T optional
+        nint = len(r["blocks"]) - 1
+
+        def not_a_competitor(t):
+            dt = site_distance(r["blocks"], iso[t][2], delta) or 0
+            return dt > dT or (dt == dT and len(iso[t][2]) - 1 != nint)
+        closest = all(t == r["T"] or not_a_competitor(t) for t in comp) if dT is not None else False
         if r["full_length"] and r["untruncated"] and closest and r["T"] not in reported:
             errs.append(("full-length-misses-T:" + kinds, "full-length read of %s (%s) reported %s to %s" %
                          (r["T"], list(r["devs"]), atype, sorted(reported)), nm))
